@@ -220,6 +220,8 @@ func buildHarness(verifDir, repo string, g *genResult, pkg string) (string, erro
 	defer buildMu.Unlock()
 	bin := filepath.Join(g.BuildDir, pkg+".test")
 	if _, err := os.Stat(bin); err == nil {
+		now := time.Now()
+		os.Chtimes(g.BuildDir, now, now) // in use: not a candidate for pruning
 		return bin, nil
 	}
 	tmp := bin + fmt.Sprintf(".tmp%d", os.Getpid())
@@ -251,11 +253,24 @@ func pruneBuilds(dir, keep string) {
 	}
 	var es []e
 	for _, x := range ents {
-		if !x.IsDir() || x.Name() == keep || x.Name() == "pam" {
+		if !x.IsDir() || x.Name() == keep || x.Name() == "pam" || strings.HasPrefix(x.Name(), "scratch-") {
 			continue
 		}
 		fi, err := x.Info()
 		if err != nil {
+			continue
+		}
+		// checks may run side by side (several properties at once, or the seeded-change evaluation
+		// next to a check of the unchanged tree): the scratch directory of a run in progress and a
+		// build directory another process has just produced are never pruned; what a killed run
+		// left behind goes after six hours
+		if strings.HasPrefix(x.Name(), "run-") || strings.HasPrefix(x.Name(), "det-") {
+			if time.Since(fi.ModTime()) > 6*time.Hour {
+				os.RemoveAll(filepath.Join(dir, x.Name()))
+			}
+			continue
+		}
+		if time.Since(fi.ModTime()) < 45*time.Minute {
 			continue
 		}
 		es = append(es, e{x.Name(), fi.ModTime()})
@@ -492,6 +507,11 @@ func check(verifDir, repo, id, tier, replay string) int {
 			tail := wr.output
 			if len(tail) > 6000 {
 				tail = tail[:3000] + "\n...\n" + tail[len(tail)-3000:]
+			}
+			for _, l := range wr.lines {
+				if l.Type == "error" {
+					tail += "\nworker error line: " + l.Msg
+				}
 			}
 			if wr.cur == "" {
 				cannot = append(cannot, fmt.Sprintf("worker %d died before its first run:\n%s", k, tail))
